@@ -58,6 +58,7 @@ structure World (σ : Type) where
   dev : σ
   buf : Bytes := []
   wire : List Ev := []
+  closed : Bool := false   -- transport.close() was called (by a timeout handler): every later transport call raises
 
 /-- result of one operation as its caller sees it: returned normally / raised, and the reads it got -/
 structure Outcome where
@@ -80,14 +81,18 @@ structure St (σ : Type) where
   /-- finished operations in the order they ended, with their outcome -/
   finished : List ((Nat × Nat) × Outcome) := []
 
+/-- does this transport call raise: an injected failure, or the transport has been closed
+    (write: ScrapliConnectionNotOpened, read: ScrapliConnectionError) -/
+def raises {σ} (w : World σ) (st : Step) : Bool := st.fails || w.closed
+
 /-- one transport call of caller `i`'s operation `k`; returns the new world and what is appended to
     the operation's reads -/
 def perform {σ} (D : Dev σ) (w : World σ) (i k : Nat) (st : Step) : World σ × List Bytes :=
-  if st.fails then ({ w with wire := w.wire ++ [⟨i, k, st.act, true, []⟩] }, [])
+  if raises w st then ({ w with wire := w.wire ++ [⟨i, k, st.act, true, []⟩] }, [])
   else match st.act with
     | .write b =>
       let r := D.onWrite w.dev b
-      ({ dev := r.1, buf := w.buf ++ r.2, wire := w.wire ++ [⟨i, k, .write b, false, r.2⟩] }, [])
+      ({ w with dev := r.1, buf := w.buf ++ r.2, wire := w.wire ++ [⟨i, k, .write b, false, r.2⟩] }, [])
     | .read => ({ w with buf := [], wire := w.wire ++ [⟨i, k, .read, false, w.buf⟩] }, [w.buf])
 
 def opAt (progs : List Prog) (i k : Nat) : Option Op := (progs[i]?).bind (·[k]?)
@@ -122,7 +127,7 @@ def step {σ} (locking : Bool) (D : Dev σ) (progs : List Prog) (s : St σ) (i :
     | some [] => s                                            -- never reached (see `Inv.curne`)
     | some (st :: rest) =>
       let r := perform D s.world i c.pc st
-      if st.fails then finishOp s r.1 i c ⟨false, c.reads⟩
+      if raises s.world st then finishOp s r.1 i c ⟨false, c.reads⟩
       else if rest.isEmpty then finishOp s r.1 i c ⟨true, c.reads ++ r.2⟩
       else contSt s r.1 i c rest (c.reads ++ r.2)
 
@@ -132,6 +137,25 @@ def init {σ} (D : Dev σ) (progs : List Prog) : St σ :=
 /-- the state after a schedule (threads: every transport call is a yield point) -/
 def run {σ} (locking : Bool) (D : Dev σ) (progs : List Prog) (sched : List Nat) : St σ :=
   sched.foldl (step locking D progs) (init D progs)
+
+/-! ### what "release on every exit" rests on
+
+    `finishOp` frees the lock also when the call raised: that IS the with-statement / (async)contextmanager semantics of
+    `_channel_lock` (sync_channel.py:34-53) and is true of the model by construction.  `relOnRaise = false` is the variant
+    "`acquire()`; body; `release()` without with/try-finally": a raising call leaves the lock held.  Which of the two the
+    source is, is the GENERATED `lockContext` (tools/gen/c19.py); `stepR true = step`. -/
+def stepR {σ} (relOnRaise locking : Bool) (D : Dev σ) (progs : List Prog) (s : St σ) (i : Nat) : St σ :=
+  let s' := step locking D progs s i
+  if relOnRaise then s' else
+    match s.callers[i]? with
+    | some c =>
+      match c.cur with
+      | some (st :: _) => if raises s.world st then { s' with lock := s.lock } else s'
+      | _ => s'
+    | none => s'
+
+def runR {σ} (relOnRaise locking : Bool) (D : Dev σ) (progs : List Prog) (sched : List Nat) : St σ :=
+  sched.foldl (stepR relOnRaise locking D progs) (init D progs)
 
 /-! ### asyncio: `transport.write` is a plain function, a task cannot be suspended before it.  A
     scheduled task therefore also runs through the writes that follow, up to its next `await`
@@ -162,19 +186,33 @@ def runAsync {σ} (locking : Bool) (D : Dev σ) (progs : List Prog) (sched : Lis
 
 /-! ### a caller gives up while it WAITS for the lock
 
-    asyncio: `task.cancel()`, or the `asyncio.wait_for` of the timeout decorator expiring, while the task is
-    parked in `async with self.channel_lock:` (async_channel.py:50).  `asyncio.Lock.acquire()` raises
-    CancelledError, `__aenter__` has not completed so `__aexit__` is NOT run: the operation is abandoned
-    without a transport call and WITHOUT touching the lock.  (Threads cannot be cancelled; a thread whose
-    timeout expires while its pool worker waits for the lock is joined, i.e. it simply waits.)
+    `cancel i` — `task.cancel()` ONLY, while the task is parked in `async with self.channel_lock:` (async_channel.py:50):
+    `asyncio.Lock.acquire()` raises CancelledError, `__aenter__` has not completed so `__aexit__` is NOT run: the operation
+    is abandoned without a transport call and WITHOUT touching the lock.  This event has no other effect.
+    `timeout i` — the timeout decorator expiring at the same point is NOT that: after the cancel, `_handle_timeout` calls
+    `transport.close()` on the transport every caller shares, so the holder's next transport call raises (`raises`).
+    `close` — threads cannot be cancelled: a thread whose timeout expires while its pool worker waits for the lock runs
+    `_handle_timeout` (close) and then joins the worker, which later takes the lock and fails at its first call: a `close`
+    event followed by ordinary `run` events.
     `releases = true` is the variant "release in a `finally` that also covers the acquire" — asyncio.Lock.release()
     does not check ownership — kept to show what the `with` statement excludes. -/
 
 /-- schedule entry: run caller `i` to its next yield point | cancel caller `i` if it is waiting for the lock -/
 inductive SEv where
   | run (i : Nat)
-  | cancel (i : Nat)
+  | cancel (i : Nat)     -- task.cancel() ONLY (no timeout handler runs)
+  | timeout (i : Nat)    -- asyncio: the timeout decorator's `wait_for` expires while task i waits for the lock
+  | close                -- somebody closes the shared transport (threads: `_handle_timeout` of a caller whose pool worker waits for the lock)
 deriving Repr, DecidableEq
+
+/-- caller `i` is parked at the lock with an operation left -/
+def waiting {σ} (progs : List Prog) (s : St σ) (i : Nat) : Bool :=
+  match s.callers[i]? with
+  | some c => c.cur.isNone && (opAt progs i c.pc).isSome
+  | none => false
+
+/-- `_handle_timeout` (decorators.py:118-142): `transport.close()` — on the transport ALL callers share -/
+def closeW {σ} (s : St σ) : St σ := { s with world := { s.world with closed := true } }
 
 def cancelWaiting {σ} (releases : Bool) (progs : List Prog) (s : St σ) (i : Nat) : St σ :=
   match s.callers[i]? with
@@ -189,13 +227,23 @@ def cancelWaiting {σ} (releases : Bool) (progs : List Prog) (s : St σ) (i : Na
         { s with callers := s.callers.set i { pc := c.pc + 1, cur := none, reads := [] },
                  lock := if releases then none else s.lock }
 
+/-- asyncio, decorators.py:192-205: `asyncio.wait_for(wrapped_func(...), timeout)` expires while the task is parked at the
+    lock: the task is cancelled there (as `cancelWaiting`) AND `_handle_timeout` closes the shared transport before
+    ScrapliTimeout is raised: whoever holds the lock finds its next transport call failing.  Not a side-effect-free event. -/
+def timeoutWaiting {σ} (releases : Bool) (progs : List Prog) (s : St σ) (i : Nat) : St σ :=
+  if waiting progs s i then closeW (cancelWaiting releases progs s i) else s
+
 def stepE {σ} (releases locking : Bool) (D : Dev σ) (progs : List Prog) (s : St σ) : SEv → St σ
   | .run i => step locking D progs s i
   | .cancel i => cancelWaiting releases progs s i
+  | .timeout i => timeoutWaiting releases progs s i
+  | .close => closeW s
 
 def stepEAsync {σ} (releases locking : Bool) (D : Dev σ) (progs : List Prog) (s : St σ) : SEv → St σ
   | .run i => stepAsync locking D progs s i
   | .cancel i => cancelWaiting releases progs s i
+  | .timeout i => timeoutWaiting releases progs s i
+  | .close => closeW s
 
 /-- the state after a history of run / cancel events -/
 def runE {σ} (releases locking : Bool) (D : Dev σ) (progs : List Prog) (evs : List SEv) : St σ :=
@@ -210,7 +258,7 @@ def runOp {σ} (D : Dev σ) (w : World σ) (i k : Nat) : List Step → List Byte
   | [], reads => (w, ⟨true, reads⟩)
   | st :: rest, reads =>
     let r := perform D w i k st
-    if st.fails then (r.1, ⟨false, reads⟩) else runOp D r.1 i k rest (reads ++ r.2)
+    if raises w st then (r.1, ⟨false, reads⟩) else runOp D r.1 i k rest (reads ++ r.2)
 
 def serialStep {σ} (D : Dev σ) (progs : List Prog) (a : World σ × List ((Nat × Nat) × Outcome)) (key : Nat × Nat) :
     World σ × List ((Nat × Nat) × Outcome) :=
